@@ -214,6 +214,22 @@ class Module:
             env.pop(k, None)
 
 
+def struct_dtype_helper(mod) -> str:
+    """the private predicate "is this a NumPy structured dtype", found by ROLE: the module-level function that make_numpy_struct_dtype calls on its first
+    parameter next to the isinstance test (the name it has in the pinned tree is the fallback)"""
+    try:
+        ms = mod.func("make_numpy_struct_dtype")
+        p0 = ms.args.args[0].arg
+        top = {b.name for b in mod.tree.body if isinstance(b, ast.FunctionDef)}
+        cands = sorted({c.func.id for c in ast.walk(ms) if isinstance(c, ast.Call) and isinstance(c.func, ast.Name) and c.func.id in top and c.func.id != "_make_dtype"
+                        and len(c.args) == 1 and isinstance(c.args[0], ast.Name) and c.args[0].id == p0})
+        if len(cands) == 1:
+            return cands[0]
+    except Exception:
+        pass
+    return "_dtype_is_numpy_struct_array"
+
+
 def free_names(fn: ast.FunctionDef) -> set[str]:
     """Names loaded in fn that are neither parameters nor assigned locally (captures + globals)."""
     params = {a.arg for a in fn.args.posonlyargs + fn.args.args + fn.args.kwonlyargs}
